@@ -10,8 +10,11 @@ signature := fnv1a64(data)
 if time.Since(c.expireTime) > c.expireInterval { current, previous = {}, {}; expireTime = now + interval }
 if len(c.current) >= c.capacity || time.Now().After(c.expireTime) { previous = current; current = {}; expireTime = now + interval }
 if existingTag, ok := c.current[signature]; ok { return existingTag == "" || tag == "" || existingTag != tag }
+if existingTag, ok := c.previous[signature]; ok {
+    c.current[signature] = existingTag   // the first sighting's tag survives the rotation
+    return existingTag == "" || tag == "" || existingTag != tag
+}
 c.current[signature] = tag
-if existingTag, ok := c.previous[signature]; ok { return existingTag == "" || tag == "" || existingTag != tag }
 return false
 ```
 
@@ -63,15 +66,20 @@ def find (m : List (Sig × Tag)) (s : Sig) : Option Tag := (m.find? (fun p => p.
 /-- the tag rule: a stored tag `a` makes a call with tag `b` a duplicate -/
 def tagConflict (a b : Tag) : Bool := a == emptyTag || b == emptyTag || a != b
 
-/-- the lookup / insert-if-absent part -/
+/-- the lookup / insert-if-absent part.  A signature found only in the previous generation is
+    re-inserted into the current one WITH THE PREVIOUS GENERATION'S TAG (the tag of the first sighting
+    is kept across a rotation; repaired code, project commit "fix: replay cache keeps the tag of the
+    first sighting across a rotation") -/
 def lookup (c : Cache) (s : Sig) (tag : Tag) : Cache × Bool :=
   match find c.cur s with
   | some t => (c, tagConflict t tag)
   | none =>
-    let c' := { c with cur := (s, tag) :: c.cur }
     match find c.prev s with
-    | some t => (c', tagConflict t tag)
-    | none => (c', false)
+    | some t => ({ c with cur := (s, t) :: c.cur }, tagConflict t tag)
+    | none => ({ c with cur := (s, tag) :: c.cur }, false)
+
+/-- the signature is stored in neither generation -/
+def Fresh (c : Cache) (e : Sig) : Prop := find c.cur e = none ∧ find c.prev e = none
 
 /-- one `IsDuplicate` call on an enabled cache, by signature -/
 def step (c : Cache) (s : Sig) (tag : Tag) (now : Nat) : Cache × Bool := lookup (rot c now) s tag
@@ -107,6 +115,28 @@ def answers (c : Cache) : List Call → List Bool
     list of such signatures is shorter than `cap` -/
 def FewOthers (cap : Nat) (e : Sig) (mid : List Call) : Prop :=
   ∀ l : List Sig, l.Nodup → (∀ x ∈ l, x ∈ mid.map (·.sig) ∧ x ≠ e) → l.length < cap
+
+/-- A chain of further presentations of `e`: each round is some other traffic `mid` followed by a
+    presentation of `e` with tag `tag` at instant `time`. -/
+structure Round where
+  mid : List Call
+  tag : Tag
+  time : Nat
+
+/-- every link of the chain is inside the bounds RELATIVE TO THE PREVIOUS PRESENTATION (at `t`):
+    instants within `[t, t + interval]`, fewer than `capacity` distinct other signatures -/
+def ChainOK (cap iv : Nat) (e : Sig) : Nat → List Round → Prop
+  | _, [] => True
+  | t, r :: rest =>
+    (∀ p ∈ r.mid, t ≤ p.time ∧ p.time ≤ t + iv) ∧ t ≤ r.time ∧ r.time ≤ t + iv ∧ FewOthers cap e r.mid ∧
+    ChainOK cap iv e r.time rest
+
+/-- the answers to the presentations of `e` along a chain -/
+def chainAnswers (c : Cache) (e : Sig) : List Round → List Bool
+  | [] => []
+  | r :: rest =>
+    let c1 := run c r.mid
+    (step c1 e r.tag r.time).2 :: chainAnswers (step c1 e r.tag r.time).1 e rest
 
 /-- duplicate-free list of the members of a list (first occurrences from the right) -/
 def distinct : List Sig → List Sig
